@@ -30,6 +30,8 @@ VARIANTS = {
     "seqlong": ("gcc", ["-O2", "-g", "-DZSTD_FORCE_DECOMPRESS_SEQUENCES_LONG=1"]),
     "x2": ("gcc", ["-O2", "-g", "-DHUF_FORCE_DECOMPRESS_X2=1"]),
     "seqlongsan": ("clang-14", ["-O1", "-g", "-fsanitize=address,undefined", "-fno-sanitize-recover=all", "-fno-omit-frame-pointer", "-DZSTD_FORCE_DECOMPRESS_SEQUENCES_LONG=1"]),
+    # MemorySanitizer (C18: use of memory the trainer never wrote); the hand-written assembly is not instrumented, hence left out
+    "msan": ("clang-14", ["-O1", "-g", "-fsanitize=memory", "-fno-omit-frame-pointer", "-DZSTD_DISABLE_ASM=1", "-DZVT_NO_FILL=1"]),
 }
 COMMON_DEFS = ["-DZSTD_MULTITHREAD", "-DZSTD_LEGACY_SUPPORT=5", "-D" + GUARD,
                "-DZSTD_STATIC_LINKING_ONLY", "-DZDICT_STATIC_LINKING_ONLY", "-DXXH_NAMESPACE=ZSTD_"]
